@@ -14,6 +14,7 @@ mod wgen;
 mod harness;
 mod model;
 mod plans;
+mod scen_client;
 mod scen_disk;
 mod scen_wire;
 mod wire;
